@@ -147,6 +147,49 @@ var c06Access = []struct {
 	{"colors[ck]", func(d *c06Outer) int64 { return 0xf00 }},
 	{"byID[idk]", func(d *c06Outer) int64 { return 77 }},
 	{"byID[7]", func(d *c06Outer) int64 { return 77 }},
+	// a value held in a non-empty interface type (struct field, slice element, map value):
+	// all of the dynamic value's fields, indexes and methods are reachable, not only the
+	// interface's own methods
+	{"holder.Shape.W", func(d *c06Outer) int64 { return 3 }},
+	{`holder.Shape["H"]`, func(d *c06Outer) int64 { return 4 }},
+	{"holder.Shape.Tags[1]", func(d *c06Outer) int64 { return 8 }},
+	{"holder.Shape.Label()", func(d *c06Outer) int64 { return 34 }},
+	{"holder.Shape.Area()", func(d *c06Outer) int64 { return 12 }},
+	{"holder.Shapes[0].W", func(d *c06Outer) int64 { return 3 }},
+	{"holder.ByName.r.H", func(d *c06Outer) int64 { return 4 }},
+	{"holder.PShape.W * z + holder.PShape.Area()", func(d *c06Outer) int64 { return 12 }},
+	// the embedded type was looked at on its own first: the embedding type's own / shallower
+	// field of the same name still wins
+	{"baseAlone.ID * z + baseAlone.Name * z + user.Name", func(d *c06Outer) int64 { return 30 }},
+	{"deepAlone.Title * z + doc.Title", func(d *c06Outer) int64 { return 50 }},
+}
+
+type c06Shaper interface{ Area() int64 }
+type c06Rect struct {
+	W, H int64
+	Tags []int64
+}
+
+func (r c06Rect) Area() int64  { return r.W * r.H }
+func (r c06Rect) Label() int64 { return r.W*10 + r.H }
+
+type c06Holder struct {
+	Shape  c06Shaper
+	PShape c06Shaper
+	Shapes []c06Shaper
+	ByName map[string]c06Shaper
+}
+type C06Base struct{ ID, Name int64 }
+type c06User struct {
+	C06Base
+	Name int64
+}
+type C06DInner struct{ Title int64 }
+type C06Deep struct{ C06DInner }
+type C06Flat struct{ Title int64 }
+type c06Doc struct {
+	C06Deep
+	C06Flat
 }
 
 type c06Color string
@@ -206,6 +249,12 @@ func H_C06_access() {
 	vars.Set("ni", &ni)
 	vars.Set("nm", &nm)
 	vars.Set("hold", &struct{ NS c06NamedSlice }{ns})
+	rect := c06Rect{3, 4, []int64{7, 8}}
+	vars.Set("holder", c06Holder{Shape: rect, PShape: &rect, Shapes: []c06Shaper{rect}, ByName: map[string]c06Shaper{"r": rect}})
+	vars.Set("baseAlone", C06Base{10, 20})
+	vars.Set("user", c06User{C06Base{10, 20}, 30})
+	vars.Set("deepAlone", C06Deep{C06DInner{40}})
+	vars.Set("doc", c06Doc{C06Deep{C06DInner{40}}, C06Flat{50}})
 	vars.Set("colors", map[c06Color]int64{"red": 0xf00})
 	vars.Set("ck", "red")
 	vars.Set("byID", map[c06ID]int64{7: 77})
